@@ -35,6 +35,7 @@ const (
 	LTx          = "tx"
 	LBadOptions  = "bad-options"
 	LBadResize   = "bad-resize"
+	LBadCreate   = "bad-create" // creation of a NEW file fails (options that pass validation but can not be used)
 	LDamageBoth  = "damage-both-headers"
 	LShortFile   = "short-file"
 	LEmptyHeader = "zero-headers"
@@ -303,6 +304,43 @@ func RunC18(p *LockSeq) Result {
 				}
 				c["open-after-failed-open"]++
 			}
+		case LBadCreate:
+			// a fresh path: the failing Open is a failing *creation*; afterwards the path must not be locked
+			fresh := filepath.Join(dir, fmt.Sprintf("fresh-%d.dat", i))
+			bo := txfile.Options{PageSize: p.PageSize, MaxSize: 4096} // too small for any file, but valid as an option
+			if i%2 == 1 {
+				bo = txfile.Options{PageSize: p.PageSize, MaxSize: uint64(p.PageSize) * 3, Prealloc: true}
+			}
+			bf, err := txfile.Open(fresh, 0o600, bo)
+			if err == nil {
+				bf.Close()
+				c["bad-create-accepted"]++
+				continue
+			}
+			c["failed-open"]++
+			c["failed-create"]++
+			done := make(chan error, 1)
+			go func() {
+				nf, err := txfile.Open(fresh, 0o600, txfile.Options{PageSize: p.PageSize, MaxSize: opts.MaxSize})
+				if err == nil {
+					nf.Close()
+				}
+				done <- err
+			}()
+			select {
+			case err := <-done:
+				if err != nil && txerr.Is(txfile.LockFailed, err) {
+					return fail("open-fault-lock", "step %d: creating a new file failed (%v options); the next Open of that path failed with a lock error: %v", i, bo, err)
+				}
+				if err != nil {
+					// "after any Open that failed for whatever reason the path can be opened again": the failed
+					// creation must not leave something behind that makes every later Open of the path fail
+					return fail("open-after-failed-create", "step %d: creating a new file failed (MaxSize %d, Prealloc %v); the next Open of that path with usable options fails too: %v", i, bo.MaxSize, bo.Prealloc, err)
+				}
+				c["open-after-failed-create"]++
+			case <-time.After(HangTimeout):
+				return fail("hang", "step %d: Open after a failed creation blocks", i)
+			}
 		case LDamageBoth, LShortFile, LEmptyHeader:
 			if f != nil || good == nil {
 				continue
@@ -383,6 +421,13 @@ func simOpenFaults(p *LockSeq, c map[string]int) (v *harness.Violation) {
 		if d.Locked() {
 			return &harness.Violation{Clause: "open-fault-lock", Item: -1, Msg: fmt.Sprintf("failed creation (%s call failing) left the file locked", k)}
 		}
+		d.Arm(nil)
+		f, err = txfile.VerifOpen(d, opts)
+		if err != nil {
+			return &harness.Violation{Clause: "open-after-failed-create", Item: -1, Msg: fmt.Sprintf("creating the file failed (%s call failing); the next Open, without failures, fails too: %v", k, err)}
+		}
+		f.Close()
+		c["sim-open-after-failed-create"]++
 	}
 	// existing file
 	d := simdisk.New("c18-existing")
